@@ -247,7 +247,7 @@ fn check_safety(run: &Run, p: &RefPos, b: &Board, legal: &[RMove], texts: &[Stri
     run.add("short_strings", n);
 }
 
-pub const RULE: &str = "positions = SAN-specific roots (queens / rooks / knights / bishops needing file, rank and full-square disambiguation, a pinned rival, castling with check and with mate, en-passant captures, capture- and under-promotions), the curated roots, and their children (quick: children of the SAN roots; thorough: also of all roots), plus the en-passant family without extra man and the ~4350 feature-covering roots (thorough: with children). Per position: (a) every admissible spelling of every legal move (minimal and every fuller correct disambiguation, x on captures, promotion letter, no mark or the correct +/#, optional ' e.p.') must parse to exactly that move; (b) on a subset, EVERY grammar-complete text piece x source(81) x x x dest(all destinations + 2) x promo{-,Q,N} x {-,+} x {-, e.p.} judged by a reference interpreter (fits exactly one and markers right: must parse to it; fits none or several: must be rejected; flawed only in an unvalidated marker: either); (d) call order: for up to 400 (thorough 4000) pairs per truncation of different positions whose hashes agree in the low 32 / high 32 / low 16 / low 24 / xor-folded 32 / high 32 + low 8 / high 16 + low 16 bits, from_san is asked about the first and then, on the same thread, every spelling of every move of the second is judged (a memo keyed by a narrowed hash would answer for the wrong position); (c) the complete 1-edit ball (insert / delete / substitute over a 28-symbol alphabet incl. 2/3/4-byte characters, among them characters whose low byte equals N, x, O, 1, e, Q) of every spelling and all strings of length <= 3 (quick: 2): no panic and Ok(m) implies m legal. distinct_nontrivial = spellings that needed disambiguation, castling, en passant, promotion or a check/mate mark";
+pub const RULE: &str = "positions = SAN-specific roots (queens / rooks / knights / bishops needing file, rank and full-square disambiguation, a pinned rival, castling with check and with mate, en-passant captures, capture- and under-promotions), the curated roots, and their children (quick: children of the SAN roots; thorough: also of all roots), plus the en-passant family without extra man and the ~4350 feature-covering roots (thorough: with children). Per position: (a) every admissible spelling of every legal move (minimal and every fuller correct disambiguation, x on captures, promotion letter, no mark or the correct +/#, optional ' e.p.') must parse to exactly that move; (b) on a subset, EVERY grammar-complete text piece x source(81) x x x dest(all destinations + 2) x promo{-,Q,N} x {-,+} x {-, e.p.} judged by a reference interpreter (fits exactly one and markers right: must parse to it; fits none or several: must be rejected; flawed only in an unvalidated marker: either); (d) call order: for up to 400 (thorough 4000) pairs per truncation of different positions whose hashes agree in the low 32 / high 32 / low 16 / low 24 / xor-folded 32 / high 32 + low 8 / high 16 + low 16 bits / the high half of key x golden ratio, from_san is asked about the first and then, on the same thread, every spelling of every move of the second is judged (a memo keyed by a narrowed hash would answer for the wrong position); (c) the complete 1-edit ball (insert / delete / substitute over a 28-symbol alphabet incl. 2/3/4-byte characters, among them characters whose low byte equals N, x, O, 1, e, Q) of every spelling and all strings of length <= 3 (quick: 2): no panic and Ok(m) implies m legal. distinct_nontrivial = spellings that needed disambiguation, castling, en passant, promotion or a check/mate mark";
 
 fn check_position(run: &Run, p: &RefPos, grammar: bool, short_len: usize) {
     let b = match guard::lib(|| from_scratch(p)) {
